@@ -1008,14 +1008,17 @@ func init() {
 			x.j.Params["sync_writes"] = true
 			o := crashOpts(x.dir, x.j)
 			o.NumMemtables = 5
+			// the memtable's size decides when it rotates: skiplist tower heights must not be random
+			hn := 0
+			y.VerifHeightFn = func() int { hn++; return 1 + hn%3 }
 			x.db = mustOpen(o)
 			st := &cc08State{cr: &crashRun{dir: x.dir, blobs: map[string][]byte{}, opts: o}}
 			st.names = []string{"T1", "T2", "T3"}
-			st.writes = []map[string]string{{"c": "T1"}, {"a": string(val("T2-", 1200)), "b": "T2"}, {"b": "T3", "d": "T3"}}
+			st.writes = []map[string]string{{"c": "T1"}, {"a": string(val("T2-", 2100)), "b": "T2"}, {"b": "T3", "d": "T3"}}
 			st.acked = make([]bool, len(st.names))
 			x.state = st
-			// fill the memtable up to ~1 KiB below its limit
-			for i := 0; x.db.mt.sl.MemSize() < o.MemTableSize-2200; i++ {
+			// fill the memtable up to ~1-2 KiB below its limit: T2's 2100-byte value then fills it
+			for i := 0; x.db.mt.sl.MemSize() < o.MemTableSize-2000; i++ {
 				if err := x.db.Update(func(txn *Txn) error { return txn.Set([]byte(fmt.Sprintf("fill%03d", i)), val("f", 900)) }); err != nil {
 					panic(err)
 				}
@@ -1049,6 +1052,7 @@ func init() {
 		},
 		teardown: func(x *schedExec) {
 			y.VerifIOFn = nil
+			y.VerifHeightFn = nil
 			if x.db != nil {
 				_ = x.db.Close()
 			}
@@ -1123,6 +1127,17 @@ func init() {
 			}
 			seen := map[string]bool{}
 			rotated := false
+			for _, sn := range st.cr.snaps {
+				mems := 0
+				for n := range sn.Files {
+					if strings.HasSuffix(n, ".mem") {
+						mems++
+					}
+				}
+				if mems > 1 {
+					rotated = true // the memtable (and its WAL) was rotated during the schedule
+				}
+			}
 			for _, img := range st.cr.c10Images() {
 				k := img.Snap
 				sig := imgSig(img, st.cr.snaps[k]) + fmt.Sprint(st.snapAck[k])
@@ -1130,15 +1145,6 @@ func init() {
 					continue
 				}
 				seen[sig] = true
-				mems := 0
-				for n := range img.Files {
-					if strings.HasSuffix(n, ".mem") {
-						mems++
-					}
-				}
-				if mems > 1 {
-					rotated = true
-				}
 				dir := st.cr.materialize(x.j, img.Files)
 				o := st.cr.opts
 				o.Dir, o.ValueDir = dir, dir
